@@ -30,10 +30,39 @@ print('STATE' + json.dumps(state, sort_keys=True))
 '''
 
 
-def run_seed(seed):
+# the whole pipeline through the client parser: figures with more significant digits than any display format keeps, so that two lines
+# printing one quantity with different precision (the parser collects matching lines in a set) show up as a seed-dependent result
+CLIENT_INPUT = {'Reservoir Model': 4, 'Gradient 1': 41.275, 'Reservoir Depth': 3.123456, 'Maximum Temperature': 350, 'End-Use Option': 1, 'Power Plant Type': 2,
+                'Plant Lifetime': 4, 'Time steps per year': 2, 'Print Output to Console': 0, 'Production Flow Rate per Well': 41.23456, 'Surface Temperature': 14.56789,
+                'Ambient Temperature': 13.45678, 'Drawdown Parameter': 0.00312345, 'Injection Temperature': 51.23456, 'Starting Electricity Sale Price': 0.0612345,
+                'Ending Electricity Sale Price': 0.0712345, 'Fixed Internal Rate': 6.12345}
+CLIENT_SCRIPT = r'''
+import json, os, sys, tempfile, io, contextlib
+d = tempfile.mkdtemp(prefix='symx_c08seedc_')
+inp, out = os.path.join(d, 'in.txt'), os.path.join(d, 'out.out')
+open(inp, 'w').write(''.join(f'{k}, {v}\n' for k, v in json.loads(sys.argv[1]).items()))
+cwd = os.getcwd()
+sys.argv = ['', inp, out]
+from geophires_x import GEOPHIRESv3
+with contextlib.redirect_stdout(io.StringIO()), contextlib.redirect_stderr(io.StringIO()):
+    try:
+        GEOPHIRESv3.main(enable_geophires_logging_config=False)
+    except SystemExit:
+        pass
+os.chdir(cwd)
+from geophires_x_client.geophires_x_result import GeophiresXResult
+res = GeophiresXResult(out).result
+res.pop('metadata', None)
+print('STATE' + json.dumps({'client result': json.dumps(res, sort_keys=True, default=str)}, sort_keys=True))
+import shutil
+shutil.rmtree(d, ignore_errors=True)
+'''
+
+
+def run_seed(seed, script=None, payload=None):
     env = dict(os.environ, PYTHONHASHSEED=str(seed), PYTHONPATH=os.pathsep.join([os.path.dirname(os.path.dirname(os.path.dirname(os.path.abspath(__file__)))), gx.SRC]),
                SYMX_REPO=gx.REPO)
-    r = subprocess.run([sys.executable, '-c', SCRIPT, json.dumps(INPUT)], env=env, capture_output=True, text=True, timeout=120)
+    r = subprocess.run([sys.executable, '-c', script or SCRIPT, json.dumps(payload or INPUT)], env=env, capture_output=True, text=True, timeout=180)
     for ln in r.stdout.splitlines():
         if ln.startswith('STATE'):
             return json.loads(ln[5:])
@@ -50,6 +79,7 @@ def run_unit(unit):
     ref = None
     for sd in unit['seeds']:
         st = run_seed(sd)
+        st.update(run_seed(sd, CLIENT_SCRIPT, CLIENT_INPUT))       # + what the client parser returns for a full run's report
         log['paths'] += 1
         log['reachable'] += 1
         if ref is None:
@@ -60,7 +90,7 @@ def run_unit(unit):
         if not diff:
             log['discharged'] += 1
         else:
-            log['cex'].append({'obligation': 'the parameter state after reading (and the bottom-hole temperature) does not depend on the hash seed', 'finding': None, 'config': cfg,
+            log['cex'].append({'obligation': 'the parameter state after reading (and the bottom-hole temperature), and what the client returns for a run, do not depend on the hash seed', 'finding': None, 'config': cfg,
                                'reproduced': True, 'inputs': {'PYTHONHASHSEED': [unit['seeds'][0], sd]},
                                'detail': {'differs in': diff[:6], 'values': {k: [ref.get(k), st.get(k)] for k in diff[:3]}},
                                'how': 'fresh interpreters with different hash seeds on the same input', 'attempts': []})
